@@ -2,7 +2,7 @@
 import lark
 from hypothesis import strategies as st
 
-from ndn.app_support.light_versec import Checker, LvsModelError, SemanticError, compile_lvs
+from ndn.app_support.light_versec import DEFAULT_USER_FNS, Checker, LvsModelError, SemanticError, compile_lvs
 from ndn.app_support.light_versec import binary as bny
 
 from .. import lvs_gen as G
@@ -37,8 +37,9 @@ def run_case(case):
         r.discarded = True
         return r
     try:
-        checker = Checker(compile_lvs(text), fns)
-        loaded = Checker.load(checker.save(), fns)
+        lib_fns = {**fns, **DEFAULT_USER_FNS}       # the library runs with the $eq / $eq_type it ships
+        checker = Checker(compile_lvs(text), lib_fns)
+        loaded = Checker.load(checker.save(), lib_fns)
         # an equivalent model as another tool may have written it: the binary format prescribes no order for the signer ids of
         # a node nor for its edges
         m2 = bny.LvsModel.parse(checker.save())
@@ -46,15 +47,14 @@ def run_case(case):
             nd.sign_cons = list(reversed(nd.sign_cons))
             nd.v_edges = list(reversed(nd.v_edges))
             nd.p_edges = list(reversed(nd.p_edges))
-        reordered = Checker(m2, fns)
+        reordered = Checker(m2, lib_fns)
     except SemanticError as e:
         if 'never occurs before' in str(e) or 'Loop detected' in str(e):
             r.discarded = True
             return r
         return r.bad('C12/compile-refused-wellformed/SemanticError', f'{e} :: {text}')
-    except LvsModelError:
-        r.discarded = True
-        return r
+    except LvsModelError as e:
+        return r.bad('C12/compile-refused-wellformed/LvsModelError', f'{e} :: {text}')
     except lark.LarkError as e:
         return r.bad('C12/harness-render', f'{e} :: {text}')
     except Exception as e:
@@ -152,7 +152,7 @@ SUBCHECKS = {
     'schemas-templated': SubCheck(run_case, strategy=lambda tier: st.fixed_dictionaries({
         'schema': G.templated_schema(), 'style': st.integers(0, 5), 'salt': st.integers(0, 96), 'moves': st.just([]),
         'templated': st.just(True)}),
-        examples={'quick': 150, 'thorough': 3000}, note='one named pattern bound at different positions by two packet definitions with different signers; a '
+        examples={'quick': 240, 'thorough': 4000}, note='one named pattern bound at different positions by two packet definitions with different signers; a '
                           'multi-shape rule referred to two or three times by a signer rule'),
     'schemas-many-patterns': SubCheck(run_case, strategy=lambda tier: _case('many'), examples={'quick': 200, 'thorough': 6000},
                                       note='14 pattern names: pattern numbers reach two digits'),
